@@ -346,7 +346,13 @@ def settings_steps(rep, kind):
     import eqsig
     cls = eqsig.AccSignal if kind == "AccSignal" else eqsig.Signal
     c50 = np.logspace(-0.8, 1.3, 50)
+    c50b = c50.copy()
+    c50b[1:-1] *= 1.07                   # same count, same first and last entry, other interior (the two PRINT identically)
+    rt8 = np.array([0.06, 0.11, 0.2, 0.35, 0.5, 0.8, 1.1, 1.6])
+    rt8b = rt8.copy()
+    rt8b[1:-1] *= 1.13
     forms = [("smooth_fa_freqs = 50 custom", lambda o: setattr(o, "smooth_fa_freqs", c50.copy())),
+             ("smooth_fa_freqs = 50 custom, same ends, other interior", lambda o: setattr(o, "smooth_fa_freqs", c50b.copy())),
              ("smooth_fa_frequencies = 50 other custom", lambda o: setattr(o, "smooth_fa_frequencies", c50 * 1.1)),
              ("smooth_fa_freqs = 9 custom", lambda o: setattr(o, "smooth_fa_freqs", FREQ_B.copy())),
              ("set_smooth_fa_frequecies_by_range((0.1, 30), 50)", lambda o: o.set_smooth_fa_frequecies_by_range((0.1, 30), 50)),
@@ -358,7 +364,9 @@ def settings_steps(rep, kind):
              ("gen_smooth_fa_spectrum(smooth_fa_freqs=50 custom)", lambda o: o.gen_smooth_fa_spectrum(smooth_fa_freqs=c50 * 0.9)),
              ("smooth_fa_freqs *= 1.25 in place", lambda o: setattr(o, "smooth_fa_freqs", o.smooth_fa_freqs.__imul__(1.25)))]
     if kind == "AccSignal":
-        forms += [("response_times = 4 custom", lambda o: setattr(o, "response_times", RT_B.copy())),
+        forms += [("response_times = 8 custom", lambda o: setattr(o, "response_times", rt8.copy())),
+                  ("response_times = 8 custom, same ends, other interior", lambda o: setattr(o, "response_times", rt8b.copy())),
+                  ("response_times = 4 custom", lambda o: setattr(o, "response_times", RT_B.copy())),
                   ("response_times = 3 custom", lambda o: setattr(o, "response_times", RT_A * 1.3)),
                   ("gen_response_spectrum(response_times=3 custom)", lambda o: o.gen_response_spectrum(response_times=RT_A * 0.8)),
                   ("response_series(response_times=4 custom)", lambda o: o.response_series(response_times=RT_B * 1.1))]
